@@ -4,6 +4,7 @@ Theorems about `Model/Paths.lean` (`graph_to_paths`, `search_paths`, ordering an
 `global_search`).  Helper lemmas live in `IweModel/Lemmas/Paths.lean`.
 -/
 import IweModel.Lemmas.Paths
+import IweModel.Model.Symbols
 
 namespace Iwe.C18
 open Iwe Iwe.Paths
@@ -319,6 +320,189 @@ example :
   decide
 
 /-! ## why `Step` is not the first draft -/
+
+/-! ### The symbol handlers (`Model/Symbols.lean`): `workspace/symbol` and `textDocument/documentSymbol` -/
+
+open Iwe.Symbols in
+/-- **workspace symbols are the search results, in their order**: one symbol per result whose rendered
+name is not empty; nothing is reordered or added by the LSP layer -/
+theorem workspace_symbols_order (g : Graph) (results : List SearchPath) :
+    workspaceSymbols g results
+      = (results.filter fun sp => renderPath g sp.path != "").map (pathToSymbol g) := by
+  unfold workspaceSymbols
+  induction results with
+  | nil => rfl
+  | cons sp rest ih =>
+    simp only [List.map_cons, List.filter_cons]
+    have : (pathToSymbol g sp).name = renderPath g sp.path := rfl
+    rw [this]
+    split <;> simp_all
+
+open Iwe.Symbols in
+/-- **at most 100 workspace symbols**, whatever the query -/
+theorem workspace_symbols_at_most_100 (g : Graph) (paths : List SearchPath) (scores : List Nat) (e : Bool) :
+    (workspaceSymbols g (globalSearch paths scores e)).length ≤ 100 := by
+  unfold workspaceSymbols
+  exact Nat.le_trans (List.length_filter_le _ _) (by rw [List.length_map]; exact search_at_most_100 paths scores e)
+
+open Iwe.Symbols in
+/-- **every workspace symbol names a listed chain of headings**: its name is the trimmed heading texts
+of a listed outline path joined by ` • `, it is a `NAMESPACE` exactly when the path is a single
+top-level heading, and its location is the note and line of the path's last heading -/
+theorem workspace_symbol_is_listed_path (g : Graph) (results : List SearchPath)
+    (hres : ∀ sp ∈ results, sp ∈ searchPaths g) (s : Symbol) (hs : s ∈ workspaceSymbols g results) :
+    ∃ p ∈ graphToPaths g,
+      s.name = " • ".intercalate (p.map fun id => Render.trim (nodeText g id))
+      ∧ s.name ≠ ""
+      ∧ s.namespaceKind = (p.length == 1)
+      ∧ s.key = (g.nodeKey (p.getLast?.getD 0)).getD ""
+      ∧ s.line = ((g.nodeLineRange (p.getLast?.getD 0)).map (·.start)).getD 0 := by
+  unfold workspaceSymbols at hs
+  obtain ⟨hm, hne⟩ := List.mem_filter.1 hs
+  obtain ⟨sp, hsp, rfl⟩ := List.mem_map.1 hm
+  have h := hres sp hsp
+  unfold searchPaths at h
+  have h := (sortStable_perm _ _).mem_iff.1 h
+  obtain ⟨p, hp, rfl⟩ := List.mem_map.1 h
+  refine ⟨p, hp, rfl, ?_, rfl, rfl, rfl⟩
+  simpa using hne
+
+private theorem docBefore_asymm : ∀ a b : List Nat, Symbols.docBefore a b = true → Symbols.docBefore b a = false
+  | [], [], h => by simp [Symbols.docBefore] at h
+  | [], _ :: _, h => by simp [Symbols.docBefore] at h
+  | _ :: _, [], _ => by simp [Symbols.docBefore]
+  | a :: as, b :: bs, h => by
+    unfold Symbols.docBefore at h ⊢
+    by_cases hab : a = b
+    · subst hab
+      simp only [beq_self_eq_true, if_true] at h ⊢
+      exact docBefore_asymm as bs h
+    · have hba : ¬ b = a := fun e => hab e.symm
+      simp only [beq_iff_eq, hab, hba, if_false, decide_eq_true_eq, decide_eq_false_iff_not] at h ⊢
+      omega
+
+private theorem docBefore_trans : ∀ a b c : List Nat, Symbols.docBefore a b = true → Symbols.docBefore b c = true →
+    Symbols.docBefore a c = true
+  | [], _, _, h1, _ => by
+    cases ‹List Nat› <;> simp [Symbols.docBefore] at h1
+  | _ :: _, [], [], _, h2 => by simp [Symbols.docBefore] at h2
+  | _ :: _, [], _ :: _, _, h2 => by simp [Symbols.docBefore] at h2
+  | _ :: _, _ :: _, [], _, _ => by simp [Symbols.docBefore]
+  | a :: as, b :: bs, c :: cs, h1, h2 => by
+    unfold Symbols.docBefore at h1 h2 ⊢
+    by_cases hab : a = b
+    · subst hab
+      simp only [beq_self_eq_true, if_true] at h1
+      by_cases hac : a = c
+      · subst hac
+        simp only [beq_self_eq_true, if_true] at h2 ⊢
+        exact docBefore_trans as bs cs h1 h2
+      · simp only [beq_iff_eq, hac, if_false] at h2 ⊢
+        exact h2
+    · simp only [beq_iff_eq, hab, if_false, decide_eq_true_eq] at h1
+      by_cases hbc : b = c
+      · subst hbc
+        simp only [beq_iff_eq, hab, if_false, decide_eq_true_eq]
+        exact h1
+      · simp only [beq_iff_eq, hbc, if_false, decide_eq_true_eq] at h2
+        have hac : ¬ a = c := by omega
+        simp only [beq_iff_eq, hac, if_false, decide_eq_true_eq]
+        omega
+
+open Iwe.Symbols in
+/-- **document symbols, exactly**: a symbol is listed for a note iff it is the nested symbol of a listed
+outline path with its first heading removed, for a path that runs through the note's first block (or
+its document node), has between two and four headings, and whose rendered name is not empty.  So
+every document symbol is the last heading of a real chain of current headings, shown with the text of
+that heading and at that heading's line. -/
+theorem document_symbols_spec (g : Graph) (key : String) (s : Symbol) :
+    s ∈ documentSymbols g key ↔
+      ∃ doc first p, assocGet g.keys key = some doc ∧ (g.node doc).child? = some first
+        ∧ p ∈ graphToPaths g ∧ (first ∈ p ∨ doc ∈ p) ∧ 2 ≤ p.length ∧ p.length ≤ 4
+        ∧ s = nestedSymbol g (p.drop 1) ∧ s.name ≠ "" := by
+  unfold documentSymbols documentSymbolsOf
+  cases hk : assocGet g.keys key with
+  | none => simp
+  | some doc =>
+    cases hc : (g.node doc).child? with
+    | none => simp [hc]
+    | some first =>
+      simp only [hc]
+      constructor
+      · intro h
+        obtain ⟨h1, hne⟩ := List.mem_filter.1 h
+        obtain ⟨q, hq, rfl⟩ := List.mem_map.1 h1
+        obtain ⟨hq1, hq4⟩ := List.mem_filter.1 hq
+        obtain ⟨p, hp, rfl⟩ := List.mem_map.1 hq1
+        have hp := (sortStable_perm _ _).mem_iff.1 hp
+        obtain ⟨hp2, hlen⟩ := List.mem_filter.1 hp
+        obtain ⟨hp3, hin⟩ := List.mem_filter.1 hp2
+        simp only [List.length_drop, decide_eq_true_eq] at hq4 hlen
+        refine ⟨doc, first, p, rfl, hc, hp3, ?_, by omega, by omega, rfl, ?_⟩
+        · simpa [List.contains_iff_mem] using hin
+        · simpa using hne
+      · rintro ⟨doc', first', p, hd, hf, hp, hin, h2, h4, rfl, hne⟩
+        cases hd
+        cases hc.symm.trans hf
+        refine List.mem_filter.2 ⟨List.mem_map.2 ⟨p.drop 1, List.mem_filter.2 ⟨List.mem_map.2 ⟨p, ?_, rfl⟩, ?_⟩, rfl⟩, ?_⟩
+        · refine (sortStable_perm _ _).mem_iff.2 (List.mem_filter.2 ⟨List.mem_filter.2 ⟨hp, ?_⟩, ?_⟩)
+          · simpa [List.contains_iff_mem] using hin
+          · simp only [decide_eq_true_eq]; omega
+        · simp only [List.length_drop, decide_eq_true_eq]; omega
+        · simpa using hne
+
+open Iwe.Symbols in
+/-- a note the graph does not hold, or a note without blocks, has no document symbols (no panic) -/
+theorem document_symbols_unknown_note (g : Graph) (key : String)
+    (h : assocGet g.keys key = none ∨ ∃ doc, assocGet g.keys key = some doc ∧ (g.node doc).child? = none) :
+    documentSymbols g key = [] := by
+  unfold documentSymbols documentSymbolsOf
+  rcases h with h | ⟨doc, h, hc⟩
+  · rw [h]
+  · rw [h]; simp only [hc]
+
+open Iwe.Symbols in
+/-- **the order of document symbols**: they come from the selected paths sorted by the handler's
+comparator (at the first differing heading the later one first, a longer path before its prefix),
+and nothing else reorders them -/
+theorem document_symbols_order (g : Graph) (key : String) :
+    ∃ ps : List (List Nat), ps.Pairwise (fun a b => docBefore b a = false)
+      ∧ (∀ p ∈ ps, p ∈ graphToPaths g)
+      ∧ documentSymbols g key
+          = ((((ps.map fun p => p.drop 1).filter fun p => p.length < 4).map (nestedSymbol g)).filter fun s => s.name != "") := by
+  unfold documentSymbols documentSymbolsOf
+  cases hk : assocGet g.keys key with
+  | none => exact ⟨[], List.Pairwise.nil, by simp, by simp⟩
+  | some doc =>
+    cases hc : (g.node doc).child? with
+    | none => exact ⟨[], List.Pairwise.nil, by simp, by simp [hc]⟩
+    | some first =>
+      simp only [hc]
+      refine ⟨_, sortStable_sorted docBefore_asymm docBefore_trans _, ?_, rfl⟩
+      intro p hp
+      have := (sortStable_perm _ _).mem_iff.1 hp
+      exact (List.mem_filter.1 (List.mem_filter.1 this).1).1
+
+open Iwe.Symbols in
+/-- the name of a nested symbol: two em spaces per remaining ancestor, then the trimmed text of the
+path's last heading -/
+theorem nested_symbol_name (g : Graph) (p : List Nat) :
+    (nestedSymbol g p).name
+      = String.join (List.replicate (p.length - 1) "\u2003\u2003") ++ Render.trim (nodeText g (p.getLast?.getD 0)) := rfl
+
+/-- non-vacuity (kernel-evaluated): note `a` = `# A`, `## A2`, `### A3`, and includes `b` = `# B`; the document
+symbols of `a` are, later headings first, `B` (the included note's heading, in note `b`), `A3` (indented) and `A2` —
+not `A` itself, the first heading of every path is dropped; those of `b` are `B` -/
+example :
+    (match Graph.importDocs "" [
+        ("a", ⟨[.header ⟨0, 1⟩ 1 [.str "A"], .para ⟨2, 3⟩ [.link "b" "" .regular [.str "x"]],
+                .header ⟨4, 5⟩ 2 [.str "A2"], .header ⟨6, 7⟩ 3 [.str "A3"]], none⟩),
+        ("b", ⟨[.header ⟨0, 1⟩ 1 [.str "B"]], none⟩)] with
+     | .ok g => ((Symbols.documentSymbols g "a").map fun s => (s.name, s.key, s.line),
+                 (Symbols.documentSymbols g "b").map fun s => (s.name, s.key, s.line))
+     | .error _ => ([], []))
+    = ([("B", "b", 0), ("\u2003\u2003A3", "a", 6), ("A2", "a", 4)], [("B", "b", 0)]) := by
+  decide +kernel
 
 /-- the first draft of `Step` (false, see below) -/
 def StepDraft (g : Graph) (a b : Nat) : Prop :=
